@@ -149,4 +149,11 @@ example : (qrun (fun (n : Nat) => n) [.enqueue 5, .enqueue 31457280, .checkin tr
     .checkin false, .checkin true]).delivered = [5, 31457280] := by decide
 example : memFileChunks 4 [1, 2, 3, 4, 5, 6, 7, 8] = [[1, 2, 3, 4], [5, 6, 7, 8], []] := by decide
 
+/-- a mutex guards a table only when both belong to the same object: the pivot wrapper is appended to the PARENT's queue,
+    so it is the parent's mutex that has to be held -/
+theorem another_objects_mutex_does_not_guard :
+    guardsExpr "a.JobMtx" "pivots.Parent.JobQueue" = false ∧ guardsExpr "pivots.Parent.JobMtx" "pivots.Parent.JobQueue" = true ∧
+    guardsExpr "a.JobMtx" "a.Tasks" = true ∧ guardsExpr "a.SocksCliMtx" "a.JobQueue" = false := by decide
+example : unguarded ["JobQueue"] [.lock "a.JobMtx", .access "pivots.Parent.JobQueue", .unlock "a.JobMtx"] = ["JobQueue"] := by decide
+
 end Havoc.C04
